@@ -876,3 +876,43 @@ Qed.
 (* without a gap between two reports the second travels in the first one's message *)
 Lemma merged_message_example : messages [5000; 5000; 7000]%Z [0; 0; 0]%Z = [[5000; 5000]; [7000]]%Z.
 Proof. vm_compute. reflexivity. Qed.
+
+(* ------------------------------------------------------------------ one unreadable time spoils the list (F16) *)
+
+Lemma map_opt_none_in {A B} (f : A -> option B) l x : In x l -> f x = None -> map_opt f l = None.
+Proof.
+  induction l as [|y l IH]; intros Hin Hx; [contradiction|]. cbn [map_opt].
+  destruct Hin as [->|Hin]; [rewrite Hx; reflexivity|].
+  rewrite (IH Hin Hx). destruct (f y); reflexivity.
+Qed.
+
+(* GetStats writes string(MarshalText(expiry)), which is the empty string when MarshalText fails
+   (years above 9999).  If the client's time parser refuses the text of ONE report's expiry, the
+   whole list is refused: nobody's report can be read while that connection is joined *)
+Theorem unreadable_expiry_lemma lr ptime ncanon rs s r :
+  encode_reports rs = Some s -> In r rs -> ptime (quote_body true (r_expiresAt r)) = None ->
+  decode_reports lr ptime ncanon s = None.
+Proof.
+  intros He Hin Hp. rewrite (decode_encode_sanitized_lemma lr ptime ncanon _ _ He).
+  apply (map_opt_none_in _ _ r Hin). unfold normalize, normalize_with. rewrite Hp.
+  destruct (ptime (quote_body true (r_connected r))); reflexivity.
+Qed.
+
+Definition far_ptime (raw : bytes) : option (Z * Z) :=
+  match raw with [] => None | _ => Some (1678457085, 0)%Z end.
+Definition far_member (id : N) (exp_text : bytes) : member :=
+  mk_member id [102; 97; 114] (Some [[114; 101; 97; 100]]) true false (bytes_of "2023-03-10T14:04:45Z") exp_text
+            [117; 97] [] false (mk_frames 0 0 lex_zero (Finite lex_zero)) (mk_frames 0 0 lex_zero (Finite lex_zero)).
+
+Lemma far_expiry_refuted_lemma :
+  let ordinary := far_member 1 (bytes_of "2023-03-10T15:04:45Z") in
+  let far := far_member 2 [] in       (* MarshalText of a year above 9999 failed: "" *)
+  (exists s, encode_reports [report_of_member 0 ordinary] = Some s /\
+             exists l, decode_reports (fun r => r) far_ptime (fun l => Some l) s = Some l /\ length l = 1%nat) /\
+  (exists s, encode_reports (map (report_of_member 0) [ordinary; far]) = Some s /\ json_wf s = true /\
+             decode_reports (fun r => r) far_ptime (fun l => Some l) s = None).
+Proof.
+  split.
+  - eexists. split; [vm_compute; reflexivity|]. eexists. split; vm_compute; reflexivity.
+  - eexists. split; [vm_compute; reflexivity|]. split; vm_compute; reflexivity.
+Qed.
